@@ -68,7 +68,10 @@ func runC04(p *core.Program, r *core.Report) {
 			r.Undec("C04.unknown-tag", c, "-", "factory not found")
 			continue
 		}
-		last := fi.Decl.Body.List[len(fi.Decl.Body.List)-1]
+		last := factoryFallback(fi.Decl.Body.List)
+		if last == nil {
+			last = fi.Decl.Body.List[len(fi.Decl.Body.List)-1]
+		}
 		switch v := last.(type) {
 		case *ast.ExprStmt:
 			if call, ok := v.X.(*ast.CallExpr); ok {
@@ -346,9 +349,61 @@ func c04ShortRead(p *core.Program, r *core.Report) {
 		return ""
 	}
 	szName := fi.Decl.Type.Params.List[0].Names[0].Name
+	sinfo := fi.Pkg.TypesInfo
+	szObj := sinfo.Defs[fi.Decl.Type.Params.List[0].Names[0]]
+	// the count a Read call returned: n, err := x.Read(buf)
+	readCount := map[types.Object]bool{}
+	ast.Inspect(fi.Decl.Body, func(n ast.Node) bool {
+		if as, ok := n.(*ast.AssignStmt); ok && len(as.Lhs) == 2 && len(as.Rhs) == 1 {
+			if call, ok := ast.Unparen(as.Rhs[0]).(*ast.CallExpr); ok {
+				if sel, ok := call.Fun.(*ast.SelectorExpr); ok && sel.Sel.Name == "Read" {
+					if id, ok := as.Lhs[0].(*ast.Ident); ok {
+						readCount[sinfo.ObjectOf(id)] = true
+					}
+				}
+			}
+		}
+		return true
+	})
+	satom := func(e ast.Expr) (string, bool) {
+		switch v := ast.Unparen(e).(type) {
+		case *ast.Ident:
+			o := sinfo.ObjectOf(v)
+			if o != nil && o == szObj {
+				return "sz", true
+			}
+			if readCount[o] {
+				return "n", true
+			}
+		case *ast.CallExpr:
+			if sel, ok := v.Fun.(*ast.SelectorExpr); ok && len(v.Args) == 0 && (sel.Sel.Name == "Len" || sel.Sel.Name == "Available") {
+				return "avail", true
+			}
+			if id, ok := v.Fun.(*ast.Ident); ok && id.Name == "len" && len(v.Args) == 1 {
+				// len(buff) with buff made of sz bytes is sz
+				if aid, ok := ast.Unparen(v.Args[0]).(*ast.Ident); ok {
+					if d := localDefIn(sinfo, fi.Decl.Body, aid); d != nil {
+						if mk, ok := ast.Unparen(d).(*ast.CallExpr); ok && len(mk.Args) >= 2 {
+							if mid, ok := mk.Fun.(*ast.Ident); ok && mid.Name == "make" {
+								if sid, ok := ast.Unparen(stripConvs(sinfo, mk.Args[1])).(*ast.Ident); ok && sinfo.ObjectOf(sid) == szObj {
+									return "sz", true
+								}
+							}
+						}
+					}
+				}
+			}
+		}
+		return "", false
+	}
 	ps, over := paths.Enumerate(fi.Decl.Body, paths.Config{
 		Info: fi.Pkg.TypesInfo,
 		Cond: func(c ast.Expr, v bool) *paths.Event {
+			// comparisons among the requested size, what the input holds and the count read are recorded
+			// as linear relations, whatever side, operator or local they are spelled with
+			if f, rel, ok := linRel(sinfo, fi.Decl.Body, c, v, satom); ok {
+				return &paths.Event{Kind: "COND", Arg: "REL " + lformKey(f) + " " + rel + " 0", Pos: c.Pos()}
+			}
 			return &paths.Event{Kind: "COND", Arg: fmt.Sprintf("%s=%v", norm(c), v), Pos: c.Pos()}
 		},
 		Classify: func(n ast.Node) []paths.Event {
@@ -401,7 +456,7 @@ func c04ShortRead(p *core.Program, r *core.Report) {
 		// negative size
 		okNeg := false
 		for _, e := range pa {
-			if e.Kind == "COND" && (e.Arg == szName+"<0=false" || e.Arg == szName+">=0=true") {
+			if e.Kind == "COND" && (e.Arg == "REL sz:-1 <= 0" || e.Arg == "REL sz:-1 < 0" || e.Arg == szName+"<0=false" || e.Arg == szName+">=0=true") {
 				okNeg = true
 			}
 		}
@@ -418,13 +473,13 @@ func c04ShortRead(p *core.Program, r *core.Report) {
 				continue
 			}
 			req := mentions(e.Arg, szName, "len(buff)")
-			if req && mentions(e.Arg, "buffer.Len()", "Available()", "bufsize") && strings.HasSuffix(e.Arg, ">buffer.Len()=false") || req && mentions(e.Arg, "<=buffer.Len()=true", "<=int(in.Available())=true") {
+			if e.Arg == "REL avail:-1 sz:1 <= 0" || req && mentions(e.Arg, "buffer.Len()", "Available()", "bufsize") && strings.HasSuffix(e.Arg, ">buffer.Len()=false") || req && mentions(e.Arg, "<=buffer.Len()=true", "<=int(in.Available())=true") {
 				okBound = true
 				if ai >= 0 && i > ai {
 					order = append(order, "the buffer is allocated before the size is checked against the input")
 				}
 			}
-			if req && (mentions(e.Arg, "n!=") && strings.HasSuffix(e.Arg, "=false") || mentions(e.Arg, "n==") && strings.HasSuffix(e.Arg, "=true")) {
+			if e.Arg == "REL n:1 sz:-1 == 0" || e.Arg == "REL n:-1 sz:1 == 0" || req && (mentions(e.Arg, "n!=") && strings.HasSuffix(e.Arg, "=false") || mentions(e.Arg, "n==") && strings.HasSuffix(e.Arg, "=true")) {
 				okCount = true
 			}
 		}
